@@ -30,19 +30,19 @@ TRANSLATORS = ["T-hashes", "T-storeconsts"]
 # whose `sig` matches one of these is printed as KNOWN-FINDING and does not fail the check.
 KNOWN = [
     {"id": "C08-narrow-constant-key", "property": "C08",
-     "what": "solidity layout: an element of a mapping with non-256-bit (bytes/string) keys reached with a CONCRETE key is hashed concretely; its registered term f_sha3_N(const) has no Concat left, decode returns it undecoded and int_of substitutes the hash back, so the location is a scalar slot, whereas the same element reached with a symbolic key is (slot, [key, 0]): mapping(bytes => uint) m at slot 5; m[k] = v with symbolic 2-byte k, then m[hex'0000'] reads 0 for k = 0 (and a write through the constant is not seen through the symbolic key)",
-     "match": {"feature": "narrow-constant-key", "layout": "solidity"}},
+     "what": "an element of a mapping with non-256-bit (bytes/string) keys reached with a CONCRETE key is hashed concretely (generic layout: same when the mapping itself sits at a hashed location -- f_sha3_N(const) is not decomposed); its registered term f_sha3_N(const) has no Concat left, decode returns it undecoded and int_of substitutes the hash back, so the location is a scalar slot, whereas the same element reached with a symbolic key is (slot, [key, 0]): mapping(bytes => uint) m at slot 5; m[k] = v with symbolic 2-byte k, then m[hex'0000'] reads 0 for k = 0 (and a write through the constant is not seen through the symbolic key)",
+     "match": {"feature": "narrow-constant-key"}},
     {"id": "C08-generic-hash-valued-key", "property": "C08",
      "what": "generic layout: a mapping key that is itself a keccak hash is replaced by its 513-bit generic encoding, so sizes and values of different access paths coincide: mapping(bytes32 => uint[]) m at slot 0: the length slot of m[keccak(2)] and element 0 of m[2] are both decoded to the 1026-bit term 2*2^770",
      "match": {"feature": "hash-valued-key", "layout": "generic"}},
     {"id": "C08-mixed-width-keys-alias", "property": "C08",
-     "what": "solidity layout: the keys of nested mappings are compared as ONE concatenated bit-vector, and the chunk is identified by (slot, number of keys, total key size) only, so two accesses to a mapping with variable-length (bytes/string) keys whose key widths differ but add up to the same total alias when the concatenations coincide: mapping(bytes => mapping(bytes => uint)) m; m[hex'ab'][hex'00cd'] = 0x42; then m[hex'ab00'][hex'cd'] reads 0x42 (EVM: 0)",
-     "match": {"feature": "mixed-width-keys", "layout": "solidity"}},
+     "what": "solidity layout: the keys of nested mappings are compared as ONE concatenated bit-vector, and the chunk is identified by (slot, number of keys, total key size) only, so two accesses to a mapping with variable-length (bytes/string) keys whose key widths differ but add up to the same total alias when the concatenations coincide: mapping(bytes => mapping(bytes => uint)) m; m[hex'ab'][hex'00cd'] = 0x42; then m[hex'ab00'][hex'cd'] reads 0x42 (EVM: 0); the generic layout concatenates key and base inside the hash encoding and aliases likewise, e.g. m[hex'01'][hex'0000'] with m[hex'0001'][hex'00']",
+     "match": {"feature": "mixed-width-keys"}},
     {"id": "C08-F4-unregistered-hash-constant", "property": "C08",
      "what": "a storage location written as a hash constant (PUSH32 keccak(p) [+ offset]) that is in neither the precomputed tables nor yet registered by a run-time SHA3 is decoded as a scalar slot; the same location spelled through a run-time hash (or after the hash got registered) is decoded as an array/mapping element, so a write through one spelling is not seen through the other (SSTORE(PUSH32 keccak(100000)); SHA3(100000); SLOAD(same constant) returns 0)",
      "match": {"feature": "unresolved-hash-constant"}},
     {"id": "C08-bucket-crossing-constant", "property": "C08",
-     "what": "OffsetMap finds hash+delta only inside the hash's own 2^16 bucket: keccak(p)+d with (keccak(p) & 0xffff)+d outside [0,0xffff] is not recognised although the hash is registered (dynamic array at slot 17573: keccak & 0xffff = 0xffff, so element 1 written as a folded constant is a different location than element i=1 computed at run time)",
+     "what": "OffsetMap finds hash+delta only inside the hash's own 2^16 bucket: keccak(p)+d with (keccak(p) & 0xffff)+d outside [0,0xffff] is not recognised although the hash is registered (dynamic array at slot 17573: keccak & 0xffff = 0xffff, so element 1 written as a folded constant is a different location than element i=1 computed at run time; likewise any constant index >= 2^16 folded into the hash constant, e.g. a[65536])",
      "match": {"feature": "bucket-crossing-constant"}},
     {"id": "C08-generic-negative-offset", "property": "C08",
      "what": "generic layout: a constant keccak(p)-1 is looked up as f_sha3(p) + (2^256-1); add_all zero-extends the 256-bit addend to the 513-bit hash encoding, so (keccak(p)-1)+n never equals the element n-1 (carry not dropped): SSTORE(keccak(4), v); SLOAD((keccak(4)-1)+n) returns 0 for n = 1",
@@ -50,15 +50,17 @@ KNOWN = [
 ]
 
 ASSUMPTIONS = [
-    "keccak: distinct (size, preimage) pairs have hash values at least 2^64 apart, none below 2^64, none above 2^256-2^64 (halmos' documented collision-freedom / range assumptions, Section hypotheses of the decode theorems)",
-    "array indices / struct offsets below 2^64 (Section hypothesis)",
-    "solver oracle soundness: an `unsat` answer of Exec.check is correct (Section hypothesis of C08_raw)",
-    "z3's simplify preserves denotations; normalize() is denotation-preserving (not modelled; exercised by the correspondence run only)",
+    "solver oracle soundness: an `unsat` answer of Exec.check is correct (hypothesis of C08_raw / C08_sequences, stated in the theorems)",
+    "C08_sequences assumes the decoder is faithful on the family of locations a program uses (same EVM slot <-> same chunk and key); this is NOT proved in general -- it is checked pairwise against real Keccak-256 on every generated group (and refuted for six families of spellings, see known findings)",
+    "keccak: the EVM side of every comparison uses the real Keccak-256 (no collision among the generated preimages is assumed)",
+    "z3's simplify is modelled by its effect on the location grammar (constant folding under hashes, flattening/constant-summing of additions); normalize() is denotation-preserving and not modelled; both are exercised by the correspondence run only",
+    "path.concretization.substitution is modelled as exactly the registered concrete hashes (f_sha3_N(const) -> hash)",
     "the extracted model and driver are faithful to the Coq definitions (extraction is trusted)",
 ]
-PARTIAL = ("decode faithfulness is proved for the Solidity-layout path grammar with one spelling per hash (runtime term, or registered constant + offset inside the bucket) "
-           "and for pairs of the same shape; the generic layout's decoder is modelled and tied but has no faithfulness theorem; "
-           "Exec.select's three tests are abstracted into one oracle call; load()'s initialisation side effect is not modelled (pure default)")
+PARTIAL = ("no general decode-faithfulness theorem (C08_decode_faithful of the design): faithfulness is a hypothesis of C08_sequences, witnessed on a concrete family and checked by the tie; "
+           "the generic layout's decoder is modelled and tied but has only refutation theorems; "
+           "Exec.select's three tests are abstracted into one oracle call (tied by scripted-oracle runs of the real Exec.select); "
+           "load()'s chunk initialisation side effect is not modelled (pure default); symbolic initial storage is modelled (init) but not exercised by the L2 tie")
 
 
 # ----------------------------------------------------------------------------- L1a: decoders
@@ -170,7 +172,7 @@ def const_features(t, reg, allhashes):
         if k == "K":
             z = t[1]
             if z >= L.MAXOFF and (z >> 16) not in buckets:
-                near = [h for h in allhashes if abs(h - z) < (1 << 17)]
+                near = [h for h in allhashes if abs(h - z) < L.MAXOFF]
                 if any(h in known for h in near):
                     feats.add("bucket-crossing-constant")
                 elif near:
@@ -226,6 +228,8 @@ def gen_group(r, tier, p_unreg=0.06, special=None):
         t = L.shuffle_adds(r, t)
         if t[0] == "Add" and len(t[1]) < 2:
             t = t[1][0]
+        if r.random() < 0.3:
+            t = nest_adds(t)
         locs.append(t)
         tags.append(tg)
     r.shuffle(reg)
@@ -234,7 +238,7 @@ def gen_group(r, tier, p_unreg=0.06, special=None):
         dom = [0, 1, 2, 3] if i < 2 else [0, 1, 2, 3, 255, 256, L.W - 1, r.getrandbits(256), r.getrandbits(16)]
         envs.append([r.choice(dom) for _ in range(3)])
     return {"reg": reg, "locs": locs, "envs": envs, "tags": [sorted(x) for x in tags], "allh": sorted(allh), "canon": canons,
-            "flat_add": r.random() < 0.7, "layout_types": {str(k): str(v) for k, v in layout.items()}}
+            "flat_add": True, "layout_types": {str(k): str(v) for k, v in layout.items()}}
 
 
 def vars_of(t):
@@ -250,6 +254,24 @@ def vars_of(t):
     if k == "Add":
         return set().union(*[vars_of(x) for x in t[1]]) if t[1] else set()
     return set()
+
+
+def nest_adds(t):
+    """n-ary additions -> left-nested binary ones (what `a + b + c` builds before simplify)"""
+    k = t[0]
+    if k == "S256":
+        return ("S256", nest_adds(t[1]))
+    if k == "S512":
+        return ("S512", nest_adds(t[1]), nest_adds(t[2]))
+    if k == "SN":
+        return ("SN", t[1], t[2], nest_adds(t[3]))
+    if k == "Add":
+        items = [nest_adds(x) for x in t[1]]
+        acc = items[0]
+        for x in items[1:]:
+            acc = ("Add", [acc, x])
+        return acc
+    return t
 
 
 def key_eq(a, b):
@@ -539,32 +561,44 @@ def _tuplify(t):
     return t
 
 
-def program_features(prog, envs):
-    """syntactic/semantic features used as signatures of known findings: for every hash
-    constant of the program, is it resolvable when it is used (registered by an earlier
-    run-time hash, or precomputed)?"""
+def program_features(prog, env):
+    """features used as signatures of known findings.  For every big constant of the program:
+    is it resolvable when it is used (its hash registered by an earlier run-time hash of
+    concrete data, or precomputed)?"""
     feats = set()
     registered = set(pre_hashes())
-    allh = set()
-    for op in prog["ops"]:
-        for t in op[1:]:
-            if isinstance(t, tuple):
-                for h, _, _ in L.hashes_in(t):
-                    allh.add(h)
-    # hashes of constants that appear folded: K z close to the hash of a closed canonical term of the program
+
+    def consts(t):
+        k = t[0]
+        if k == "K":
+            return [t[1]]
+        if k == "S256":
+            return consts(t[1])
+        if k == "S512":
+            return consts(t[1]) + consts(t[2])
+        if k == "SN":
+            return consts(t[3])
+        if k == "Add":
+            return [z for x in t[1] for z in consts(x)]
+        return []
+
     for op in prog["ops"]:
         terms = [t for t in op[1:] if isinstance(t, tuple)]
-        for t in terms:
-            if op[0] != "sha3":
-                feats |= const_features(t, [(h, 0, 0) for h in registered if h not in pre_hashes()], allh | prog.get("allh", set()))
-            if "negative" in str(prog.get("tags")):
-                pass
+        if op[0] != "sha3":
+            for z in consts(op[1]):
+                if z >= L.MAXOFF and (z >> 16) not in {h >> 16 for h in registered}:
+                    if any(abs(h - z) < L.MAXOFF for h in registered):
+                        feats.add("bucket-crossing-constant")
+                    else:
+                        feats.add("unresolved-hash-constant")
         for t in terms:
             for h, _, _ in L.hashes_in(t):
                 registered.add(h)
     for name in ("negative-offset-constant", "narrow-constant-key", "hash-valued-key"):
         if name in prog.get("tags", []):
             feats.add(name)
+    if env is not None and any(v >= (1 << 255) for v in env):
+        feats.add("wrapping-offset")
     ws = [width_seq(op[1]) for op in prog["ops"] if op[0] != "sha3"]
     if any(a != b and len(a) == len(b) and sum(x for x in a if x != "a") == sum(x for x in b if x != "a") for a in ws for b in ws):
         feats.add("mixed-width-keys")
@@ -663,8 +697,8 @@ def run_l2(rep, tier, r):
         if val["uncovered"]:
             rep.count("l2_uncovered_valuations", prog["layout"], val["uncovered"])
         if val["fails"]:
-            feats = program_features(prog, None)
             f = val["fails"][0]
+            feats = program_features(prog, f["env"])
             sigs = known_sigs(feats, prog["layout"])
             report(rep, f"SLOAD returns a value different from the last write (layout={prog['layout']}): program {prog['ops']} under args {f['env']}: halmos {[hex(x) for x in f['halmos']]} vs EVM {[hex(x) for x in f['flat']]}",
                    case={"l2": prog, "env": f["env"], "halmos": f["halmos"], "flat": f["flat"], "code": val["code"]}, sigs=sigs)
